@@ -14,6 +14,46 @@ CLAIMED = {
         "(validated by the correspondence), harness and driver. Hypothesis: r + |slots| <= MaxInt32.",
    technique="Coq proof over an executable model + differential correspondence with the real helpers",
    ref="6 C01"),
+ "C03": dict(
+   text="Coq theorems (C03.v) over the model of the WHOLE reconcile: every pod delete call in the log of every reconcile, for every API "
+        "state, informer cache and fault oracle, has one of the property's three reasons w.r.t. the snapshot reconciled "
+        "(delete_reason); an up-to-date live desired pod is never planned for deletion; a slot removes only its pod. The model is tied "
+        "to the real controller (real sync / pod control / status updater / ref manager over fake clientsets with fault-injecting reactors) "
+        "by a differential run on generated snapshots and every single-fault variant, compared on the projection 'pod deletes'; an "
+        "independent Python monitor states the property over the implementation's own calls.",
+   note="Trusted: Coq kernel; the hand-written Gallina model of sync/ClaimPods/UpdateStatefulSet (Reconcile.v) and of the API-server "
+        "semantics; harness reactors; the monitor. Domain: claimed pods have non-empty phase and distinct canonical ordinals.",
+   technique="Coq proof (planner invariants lifted through a monadic program logic to the reconcile log) + differential correspondence + monitor",
+   ref="6 C03"),
+ "C04": dict(
+   text="Coq theorem (C04.v): every pod create call of every reconcile (all API states, caches, fault oracles) is the fresh pod of an ordinal "
+        "in C01's desired set that is vacant in the claimed snapshot or whose Failed/Succeeded occupant's delete immediately precedes it; "
+        "a deleting set plans nothing. Tied to the real controller by the projected ('pod creates') differential run and a monitor.",
+   note="As C03. Hypothesis: every observed pod has a non-empty phase (API-server invariant; the counter-example without it is an Example).",
+   technique="Coq proof (vacancy-fill invariant of replicas[] + lifting to the log) + differential correspondence + monitor",
+   ref="6 C04"),
+ "C05": dict(
+   text="Coq theorem (C05.v): under the ordered policy the create/delete actions of a reconcile's plan are exactly one of five shapes "
+        "(nothing / one create with all lower desired ordinals steady / in-place replacement / delete of the highest condemned pod with all "
+        "desired pods steady / one update delete with nothing to scale in and all steady), and every pod call of the log comes from that one "
+        "plan. Projected correspondence (pod creates+deletes) on ordered snapshots incl. condemned pods below desired ones; monitor.",
+   note="As C03.",
+   technique="Coq proof (case analysis of the ordered planner: ordered_outcome) + differential correspondence + monitor",
+   ref="6 C05"),
+ "C07": dict(
+   text="Coq theorems (C07.v): every revision-motivated delete (delete_reason DR_update) needs strategy <> OnDelete, ordinal >= max(partition,0), "
+        "and every higher desired ordinal observed healthy at the update revision; (re)created pods below the partition use the current "
+        "revision, the others the update revision. Projected correspondence and monitor on the real controller.",
+   note="As C03. The branch with no rollingUpdate block (status.currentReplicas) is modelled and compared, stated separately.",
+   technique="Coq proof (update-loop invariant) + differential correspondence + monitor",
+   ref="6 C07"),
+ "C14": dict(
+   text="Coq theorem (C14.v): under Parallel, for every snapshot, the plan of one reconcile contains the create of every vacant desired ordinal, "
+        "the replacement of every Failed/Succeeded desired pod, the delete of every live condemned pod, and at most one update delete. "
+        "Projected correspondence and monitor (fault-free completeness) on the real controller.",
+   note="As C03. Execution of the whole plan absent API errors is by construction of the executor model and checked by the correspondence.",
+   technique="Coq proof (burst planner completeness) + differential correspondence + monitor",
+   ref="6 C14"),
 }
 
 checks = []
